@@ -239,6 +239,10 @@ def run_scenario(case, fair=True):
                     # PEEK: tls.early_data_accepted (what the repaired function branches on; the same value is
                     # published afterwards in the HandshakeCompleted event)
                     acc = bool(holder["conn"].tls.early_data_accepted)
+                    if not acc and any((sid & 1) != 0 for sid in holder["conn"]._streams):   # PEEK
+                        # guard of the model's operation (pguard, OParamsP PRejected): every stream existing when the
+                        # handshake parameters are processed was opened by the subject (a client)
+                        R.op("GUARD-BROKEN-peer-stream-before-handshake-parameters", [], ["guard-broken"])
                     R.params_op = R.op("params_accepted" if acc else "params_not_accepted",
                                        [18, 1 if acc else 2] + _params_tokens(data), [0])
                 else:
